@@ -174,15 +174,29 @@ pub fn no_format(_args: std::fmt::Arguments<'_>) -> String {
 /// The real `OnceLock` goes through `std::sync::Once` (atomics + futex state machine), which
 /// symex cannot fold, so every `safe_len` outcome would be symbolic and every length-driven
 /// loop unbounded.  The real cell is exercised by the C19 harnesses, which do not use this stub.
-static mut LIMIT_SET: bool = false;
-static mut LIMIT: usize = 0;
+/// NOTE on the shape of these statics: Kani 0.68 resolves some *constant* operands of std
+/// (`RawVecInner::new_in`'s `ZERO_CAP`, measured) to the symbol of a `static mut` whose initial
+/// bytes are identical (eight zero bytes), so the "constant" changes when the static is written
+/// - `Vec::new()` then reports the allocation limit as its capacity.  Whether it happens depends
+/// on the crate hash (i.e. on the directory the harness crate is built in).  Every mutable
+/// static of this crate therefore is one struct whose initial bytes contain a tag that no
+/// constant of the program has; `kpipe` additionally refuses a goto program in which code
+/// outside this crate refers to one of these statics.
+#[repr(C)]
+struct LimitCell {
+    tag: u64,
+    set: u64,
+    limit: usize,
+}
+const UNSET: u64 = 0x5EED_C0DE_0000_00F0;
+static mut VERIF_LIMIT_CELL: LimitCell = LimitCell { tag: 0x5EED_C0DE_0000_0001, set: UNSET, limit: 0x5EED_C0DE_0000_0002 };
 pub fn limit_model(num_bytes: usize) -> usize {
     unsafe {
-        if !LIMIT_SET {
-            LIMIT = num_bytes;
-            LIMIT_SET = true;
+        if VERIF_LIMIT_CELL.set == UNSET {
+            VERIF_LIMIT_CELL.limit = num_bytes;
+            VERIF_LIMIT_CELL.set = 1;
         }
-        LIMIT
+        VERIF_LIMIT_CELL.limit
     }
 }
 
@@ -252,28 +266,33 @@ macro_rules! harness_nodec {
 /// uses this stub), and - unlike a pointer-to-integer cast, which CBMC treats as an opaque
 /// number until solving - decided by symex through pointer equality, so memo hits and misses
 /// are concrete.
-static mut SEEN: [*const apache_avro::schema::Schema; 32] = [std::ptr::null(); 32];
-static mut NSEEN: usize = 0;
+#[repr(C)]
+struct Interned {
+    tag: u64,
+    n: usize,
+    seen: [*const apache_avro::schema::Schema; 32],
+}
+static mut VERIF_INTERNED: Interned = Interned { tag: 0x5EED_C0DE_0000_0003, n: 0, seen: [std::ptr::null(); 32] };
 /// forget the interned addresses (between two independent checker runs)
 pub fn addr_reset() {
     unsafe {
-        NSEEN = 0;
+        VERIF_INTERNED.n = 0;
     }
 }
 pub fn addr_hash(schema: &apache_avro::schema::Schema) -> u64 {
     let p = schema as *const apache_avro::schema::Schema;
     unsafe {
         let mut i = 0;
-        while i < NSEEN {
-            if SEEN[i] == p {
+        while i < VERIF_INTERNED.n {
+            if VERIF_INTERNED.seen[i] == p {
                 return i as u64;
             }
             i += 1;
         }
-        assert!(NSEEN < 32, "pointer-hash model: more than 32 distinct schema addresses");
-        SEEN[NSEEN] = p;
-        NSEEN += 1;
-        (NSEEN - 1) as u64
+        assert!(VERIF_INTERNED.n < 32, "pointer-hash model: more than 32 distinct schema addresses");
+        VERIF_INTERNED.seen[VERIF_INTERNED.n] = p;
+        VERIF_INTERNED.n += 1;
+        (VERIF_INTERNED.n - 1) as u64
     }
 }
 
